@@ -530,6 +530,71 @@ func checkRects(c *rectsCase) string {
 	return ""
 }
 
+// bigFont / bigMetrics: n glyphs named g000000 ... (every 300th encoded, in
+// an order that differs from the alphabetical one), small outlines / boxes.
+func bigFont(n int) *fontCase {
+	f := &type1.Font{FontInfo: &type1.FontInfo{FontName: "Big", FontMatrix: matrix.Matrix{0.001, 0, 0, 0.001, 0, 0}}, Private: &type1.PrivateDict{}, Glyphs: map[string]*type1.Glyph{}}
+	f.Encoding = make([]string, 256)
+	for i := range f.Encoding {
+		f.Encoding[i] = ".notdef"
+	}
+	for i := 0; i < n; i++ {
+		name := fmt.Sprintf("g%06d", i)
+		g := &type1.Glyph{WidthX: float64(100 + i%900)}
+		g.MoveTo(float64(i%50), float64(i%70))
+		g.LineTo(float64(100+i%300), float64(i%200))
+		f.Glyphs[name] = g
+		if i%300 == 7 && i/300 < 256 {
+			f.Encoding[255-i/300] = name
+		}
+	}
+	return &fontCase{Font: f, Queries: []string{"nosuchglyph", ".notdef", "g000007", fmt.Sprintf("g%06d", n-1)}}
+}
+
+func bigMetrics(n int) *metricsCase {
+	m := &afm.Metrics{Glyphs: map[string]*afm.GlyphInfo{}}
+	m.Encoding = make([]string, 256)
+	for i := range m.Encoding {
+		m.Encoding[i] = ".notdef"
+	}
+	for i := 0; i < n; i++ {
+		name := fmt.Sprintf("g%06d", i)
+		m.Glyphs[name] = &afm.GlyphInfo{WidthX: float64(100 + i%900), BBox: rect.Rect{LLx: float64(i % 50), LLy: 0, URx: float64(100 + i%300), URy: float64(1 + i%200)}}
+		if i%300 == 7 && i/300 < 256 {
+			m.Encoding[255-i/300] = name
+		}
+	}
+	return &metricsCase{M: m, Queries: []string{"nosuchglyph", ".notdef", "g000007"}}
+}
+
+// TestP4Big: values with more glyphs than 16-bit counters hold.
+func TestP4Big(t *testing.T) {
+	rec := ev.New("C19", "big")
+	defer rec.Finish(t)
+	rec.Rule("one font and one metrics value with 300, 5000, 65535-65537 or 70000 glyphs (sizes spread over the shards), every 300th glyph encoded at a descending code; same oracles as the font and metrics parts. Every case is non-trivial.")
+	shard, nshards := ev.Shard()
+	for i, n := range []int{300, 5000, 65535, 65536, 65537, 70000} {
+		if i%nshards != shard {
+			continue
+		}
+		rec.Eval(2)
+		rec.NonTrivial(fmt.Sprint("big", n))
+		rec.Class(fmt.Sprintf("%d glyphs", n))
+		if msg := ev.Safe(func() string { return checkFont(bigFont(n)) }); msg != "" {
+			if len(msg) > 600 {
+				msg = msg[:600] + "..."
+			}
+			rec.Violation(false, fmt.Sprintf("font with %d glyphs: %s", n, msg), map[string]any{"big_font": n})
+		}
+		if msg := ev.Safe(func() string { return checkMetrics(bigMetrics(n)) }); msg != "" {
+			if len(msg) > 600 {
+				msg = msg[:600] + "..."
+			}
+			rec.Violation(false, fmt.Sprintf("metrics with %d glyphs: %s", n, msg), map[string]any{"big_metrics": n})
+		}
+	}
+}
+
 func TestP3Funit(t *testing.T) {
 	rec := ev.New("C19", "funit")
 	defer rec.Finish(t)
@@ -586,14 +651,22 @@ func TestReplay(t *testing.T) {
 		t.Skip("no VERIF_REPLAY")
 	}
 	var c struct {
-		Font    *fontCase    `json:"font"`
-		Metrics *metricsCase `json:"metrics"`
-		Rects   *rectsCase   `json:"rects"`
+		Font       *fontCase    `json:"font"`
+		Metrics    *metricsCase `json:"metrics"`
+		Rects      *rectsCase   `json:"rects"`
+		BigFont    int          `json:"big_font"`
+		BigMetrics int          `json:"big_metrics"`
 	}
 	if err := json.Unmarshal(rc.Case, &c); err != nil {
 		t.Fatal(err)
 	}
 	msg := ev.Safe(func() string {
+		if c.BigFont > 0 {
+			return checkFont(bigFont(c.BigFont))
+		}
+		if c.BigMetrics > 0 {
+			return checkMetrics(bigMetrics(c.BigMetrics))
+		}
 		if c.Font != nil {
 			return checkFont(c.Font)
 		}
